@@ -5,7 +5,7 @@ from .. import ev, iso, nf, pat, src
 from ..core import rule, ob, explain
 from ..interp import Interp, make_callable, Raised
 from ..src import Unknown
-from .common import C, levels, micro_versions, table_ob, need, single
+from .common import C, levels, micro_versions, modes, table_ob, need, single
 
 explain('C13', '''Decided completely for the four helpers, which are pure integer arithmetic on (version,
 capacity, length) and never see user data: the terminator count equals min(capacity-length, T) with T the ISO
@@ -100,17 +100,11 @@ def r2(fx):
 PADS = ([1, 1, 1, 0, 1, 1, 0, 0], [0, 0, 0, 1, 0, 0, 0, 1])
 
 
-@rule('C13', 'R3', 41, 'pad codewords 11101100 / 00010001 alternately from the first, up to the data capacity')
+@rule('C13', 'R3', 40, 'pad codewords 11101100 / 00010001 alternately from the first, up to the data capacity')
 def r3(fx):
     fn = fx.fn('encoder', 'write_pad_codewords')
     mv = micro_versions(fx)
     caps = _capacities(fx)
-    # literal occurs in the function
-    lits = [n for n in src.walk_local(fn) if isinstance(n, ast.Tuple) and all(isinstance(e, ast.Tuple) for e in n.elts)
-            and len(n.elts) == 2]
-    lit = single(lits, 'pad codeword literal (tuple of two tuples)')
-    val = ev.ev(lit, {})
-    yield ob('pad codeword literals', [list(x) for x in val] == [PADS[0], PADS[1]], lit, got=val, want=PADS)
     for v in iso.ALL_VERSIONS:
         if v in (-3, -1):
             continue
@@ -170,39 +164,81 @@ def r4(fx):
                      want=f'{"".join(map(str, bad[2]))}' if bad else 'ISO 7.4.10 fill')
 
 
-@rule('C13', 'R6', 5, '_encode: terminator, padding bits, pad codewords in this order, fresh len(buff), capacity of the final level')
+class _Stop(Unknown):
+    pass
+
+
+@rule('C13', 'R6', 8, '_encode: terminator, padding bits, pad codewords in this order on the one bit buffer, each with its current length, capacity of the final (boosted) level')
 def r6(fx):
+    """_encode is interpreted up to the construction of the final message with recording stand-ins for the segment writer, the
+    level booster and the three pad helpers (each stand-in appends some bits so that a stale length would show)."""
+    from .models import SegModel, SegmentsModel, encoder_env
+    from ..interp import FuncVal
     fn = fx.fn('encoder', '_encode')
-    calls = {}
-    order = []
-    for st in fn.body:
-        if isinstance(st, ast.Expr) and isinstance(st.value, ast.Call):
-            nm = src.call_name(st.value)
-            if nm in ('write_terminator', 'write_padding_bits', 'write_pad_codewords'):
-                calls[nm] = st.value
-                order.append(nm)
-    yield ob('call order', order == ['write_terminator', 'write_padding_bits', 'write_pad_codewords'], fn, got=order,
-             want=['write_terminator', 'write_padding_bits', 'write_pad_codewords'])
-    need(len(order) == 3 and len(set(order)) == 3, 'the three pad helpers are not called exactly once at top level of _encode')
-    b1 = pat.need(calls['write_terminator'], 'write_terminator(buff, H_cap, H_ver, H_len)', 'write_terminator call')
-    b2 = pat.need(calls['write_padding_bits'], 'write_padding_bits(buff, H_version, H_len)', 'write_padding_bits call')
-    b3 = pat.need(calls['write_pad_codewords'], 'write_pad_codewords(buff, H_version, H_cap, H_len)', 'write_pad_codewords call')
-    yield ob('each helper gets the current length', all(pat.slot(b['len'], ['len(buff)'], 'length argument') for b in (b1, b2, b3)),
-             fn, got=[ast.unparse(b['len']) for b in (b1, b2, b3)], want='len(buff)')
-    yield ob('version arguments', pat.slot(b1['ver'], ['ver'], 'ver') and pat.slot(b2['version'], ['version'], 'version')
-             and pat.slot(b3['version'], ['version'], 'version'), fn,
-             got=[ast.unparse(b1['ver']), ast.unparse(b2['version']), ast.unparse(b3['version'])], want="['ver', 'version', 'version']")
-    # capacity: SYMBOL_CAPACITY[version][error] read after the boost
-    cap_assign = [s for s in fn.body if isinstance(s, ast.Assign) and ast.unparse(s.targets[0]) == 'capacity']
-    ca = single(cap_assign, 'assignment of capacity in _encode')
-    pat.need(ca.value, 'consts.SYMBOL_CAPACITY[H_v][H_e]', 'capacity lookup')
-    bb = pat.match(ca.value, 'consts.SYMBOL_CAPACITY[H_v][H_e]')
-    okc = pat.slot(bb['v'], ['version'], 'capacity version') and pat.slot(bb['e'], ['error'], 'capacity level') \
-        and pat.slot(b1['cap'], ['capacity'], 'cap') and pat.slot(b3['cap'], ['capacity'], 'cap')
-    yield ob('capacity = SYMBOL_CAPACITY[version][error] passed to both', okc, ca, got=ast.unparse(ca.value),
-             want='consts.SYMBOL_CAPACITY[version][error]')
-    boost = [s for s in fn.body if isinstance(s, ast.If) and ast.unparse(s.test) == 'boost_error']
-    b = single(boost, '`if boost_error:` in _encode')
-    idx = fn.body.index
-    yield ob('capacity is read after the level was boosted', idx(b) < idx(ca) < idx(next(s for s in fn.body if isinstance(s, ast.Expr) and isinstance(s.value, ast.Call) and src.call_name(s.value) == 'write_terminator')),
-             ca, got=f'boost at line {b.lineno}, capacity at line {ca.lineno}', want='boost < capacity < terminator')
+    lv, mv, md = levels(fx), micro_versions(fx), modes(fx)
+    cap = C(fx, 'SYMBOL_CAPACITY')
+    for v, level, boosted in ((5, 'L', 'Q'), (-2, 'L', 'M'), (-3, None, None), (1, 'M', 'M')):
+        rv = mv[v] if v < 1 else v
+        rec = []
+        bufs = []
+
+        class B(Buf):
+            _model = ('extend', 'append_bits', 'getbits', 'toints')
+
+            def __init__(self):
+                Buf.__init__(self, 0)
+                bufs.append(self)
+
+            def append_bits(self, val, n):
+                self.bits.extend([7] * n)
+
+        def write_segment(buff, segment, ver, ver_range, eci=False):
+            buff.bits.extend([7] * 37)
+
+        def helper(name, grow):
+            def f(buff, *a):
+                rec.append((name, buff, a, len(buff)))
+                buff.bits.extend([0] * grow)
+            return f
+
+        def boost(version, error, segments, eci, is_sa=False):
+            rec.append(('boost', None, (version, error), None))
+            return None if boosted is None else lv[boosted]
+
+        def final(version, error, buff):
+            rec.append(('final', buff, (version, error), len(buff)))
+            raise _Stop()
+        it = Interp(max_steps=200_000)
+        genv = encoder_env(fx.forest, it, Buffer=B, write_segment=write_segment, write_terminator=helper('write_terminator', 3),
+                           write_padding_bits=helper('write_padding_bits', 5), write_pad_codewords=helper('write_pad_codewords', 16),
+                           boost_error_level=boost, make_final_message=final)
+        segs = SegmentsModel([SegModel(md['byte'], 'iso-8859-1')])
+        try:
+            FuncVal(fn, genv, it)(segs, None if level is None else lv[level], rv, None, False, True)
+            raise Unknown('_encode finished without constructing the final message')
+        except _Stop:
+            pass
+        names = [r[0] for r in rec]
+        tag = f'v{v} level {level} boosted to {boosted}'
+        want_order = ['boost', 'write_terminator', 'write_padding_bits', 'write_pad_codewords', 'final']
+        probs = []
+        if names != want_order:
+            probs.append(f'call order {names}')
+        else:
+            t, pb, pc, fin = rec[1], rec[2], rec[3], rec[4]
+            if not (t[1] is pb[1] is pc[1] is fin[1]) or len(bufs) != 1:
+                probs.append('the helpers do not all work on the one bit buffer that becomes the final message')
+            want_cap = cap[rv][None if boosted is None else lv[boosted]]
+            ver_t = None if v >= 1 else rv
+            if t[2] != (want_cap, ver_t, t[3]):
+                probs.append(f'write_terminator(capacity, ver, length) = {t[2]}, expected ({want_cap}, {ver_t}, {t[3]})')
+            if pb[2] != (rv, pb[3]):
+                probs.append(f'write_padding_bits(version, length) = {pb[2]}, expected ({rv}, {pb[3]})')
+            if pc[2] != (rv, want_cap, pc[3]):
+                probs.append(f'write_pad_codewords(version, capacity, length) = {pc[2]}, expected ({rv}, {want_cap}, {pc[3]})')
+            if fin[2] != (rv, None if boosted is None else lv[boosted]):
+                probs.append(f'final message built for (version, level) = {fin[2]}')
+        yield ob(f'{tag}: order, buffer, current lengths', not [p_ for p_ in probs if 'capacity' not in p_ and 'final message built' not in p_], fn,
+                 got='; '.join(probs) or 'as required', want='as required')
+        yield ob(f'{tag}: capacity = SYMBOL_CAPACITY[version][level after boosting] for terminator and pad codewords', not [p_ for p_ in probs if 'capacity' in p_ or 'final message built' in p_],
+                 fn, got='; '.join(probs) or 'as required', want='as required')
